@@ -8,7 +8,8 @@ where <form> names how the option value is built (see MEMO_FORMS).  The generato
 C09 (harness/props/c09.py imports them)."""
 import numpy as np
 from harness.driver import call_impl, cz, cnat, czlist, cgrid, clist, cres
-from harness.twins import Logged1, make_rule, coq_rule_spec, PredLt, dress, RULE_DRESSINGS
+from harness.twins import (Logged1, make_rule, coq_rule_spec, PredLt, dress, RULE_DRESSINGS, ProjView1, Reentrant,
+                           Scribble, invoke)
 
 ID = 'C03'
 COQ_IMPORTS = ('From Coq Require Import String.\n'
@@ -25,13 +26,21 @@ ASSUMPTIONS = ['rules are pure (Lin: sum(w_i * n_i) mod k; Aff: (sum(w_i * n_i) 
                'rule results outside the dtype range: bucket outofrange/* only, not compared with the model (open finding cast-path)',
                'an unsupported option value must be rejected only when at least one step is attempted (the option is '
                'examined inside the loop body); any exception class counts as rejection']
-TRUSTED = ['Python twins Lin1 / Aff1 / Logged1 / PredLt and the shape-only wrappers twins.dress of harness/twins.py']
+TRUSTED = ['Python twins Lin1 / Aff1 / Logged1 / PredLt / ProjView1 / Scribble / Reentrant, twins.invoke and the shape-only '
+           'wrappers twins.dress of harness/twins.py; BlankCentre / SortThenRank of harness/props/c03.py']
 
 # hit-rate bookkeeping, reported through NOTES (the driver reads NOTES after the run)
 _STATS = {'True': [0, 0], 'recursive': [0, 0]}     # mode -> [rule calls, cells computed]
 NOTES = ['every (N, r) with 1 <= r <= N <= 9 and every T in 1..6 is enumerated in all three modes; quick: alphabet, '
          'fixed/callable and the shape of the initial row cycle; thorough: crossed completely',
          'cache hit rate: (filled in by the run)',
+         'retview/*: twins.ProjView1 (the rule returns a 0-d VIEW of its neighbourhood; model = one-hot Lin mod 7, cells 0..4), '
+         'T in 4..6; inplace/blank, inplace/scribble<fill>: rules that write into their argument (BlankCentre: model Lin; '
+         'twins.Scribble over Lin/Aff with fill 0, 1, 2, 77: model = inner rule), all three modes, N not a power of two, r up '
+         'to N; inplace/sortrank is decided by the Python oracle alone (SortThenRank has no Coq twin: the three modes are '
+         'compared with a reference ring update computed in the harness; Coq term = CNotCompared); reentrant/*: '
+         'twins.Reentrant, the rule runs a memoised cpl.evolve with another rule on the same N, r, dtype and row before and '
+         'after computing its value; callform/pos<k>/*: twins.invoke with k positional arguments, the rest by keyword',
          'dress/<how>/*: every shape of twins.RULE_DRESSINGS is applied outermost to the logging twin (>= 6 cases each, the '
          'four user-subclass shapes sub:BaseRule / sub:NKSRule / sub:BinaryRule / sub:TotalisticRule >= 12), memoize=True and '
          '"recursive", fixed and callable, N in {3,5,6,7,9,10,11,13}, r up to N, rules whose weights differ mod k so that '
@@ -393,7 +402,129 @@ def gen_objdtype(rng, tier):
                           'ts': ['lt', T] if dyn else ['fixed', T]}]}
 
 
+# ---- round 6: rules that hand back views, write into their argument, or re-enter the library
+SIZES_NP2 = [3, 5, 6, 7, 9, 10, 11, 12, 13]        # rings that are not powers of two
+
+
+class BlankCentre:
+    """pure rule that WRITES INTO its argument: reads the centre, sets n[mid] = 0 in place, then returns
+    (wc * centre + sum(w_i * n_i over the blanked neighbourhood)) mod m.  As a function of the ORIGINAL contents this
+    is Lin ws m (ws[mid] = wc): that is the model side."""
+    def __init__(self, ws, m):
+        self.ws, self.m = list(ws), m
+
+    def __call__(self, nbhd_arg, cell_arg, step_arg):
+        mid = len(nbhd_arg) // 2
+        centre = int(nbhd_arg[mid])
+        nbhd_arg[mid] = 0
+        rest = sum(w * int(x) for i, (w, x) in enumerate(zip(self.ws, nbhd_arg)))     # the centre now contributes 0
+        return (self.ws[mid] * centre + rest) % self.m
+
+
+class SortThenRank:
+    """pure rule that WRITES INTO its argument: reads the centre, sorts the neighbourhood in place and returns the
+    rank of the centre in it = the number of cells of the ORIGINAL neighbourhood smaller than its centre (no Coq
+    twin: bucket inplace/sortrank is decided by the Python oracle against a reference computed in the harness)"""
+    def __call__(self, nbhd_arg, cell_arg, step_arg):
+        centre = nbhd_arg[len(nbhd_arg) // 2].item()
+        nbhd_arg.sort()
+        return int(np.searchsorted(nbhd_arg, centre, side='left'))
+
+
+def gen_retview(rng, tier):
+    """(f) rules that return a ZERO-DIMENSIONAL VIEW of their neighbourhood (twins.ProjView1): a result kept in a memo
+    table aliases the neighbourhood's memory; if that memory is re-used for later steps the cached value changes.
+    Model side: one-hot Lin with modulus 7 above every cell value (cells in 0..4).  T >= 4 so that hits come after
+    the neighbourhoods of later steps have been gathered."""
+    n = 28 if tier == 'quick' else 280
+    for i in range(n):
+        mode = ('memo', 'memo', 'recursive', 'plain')[i % 4]
+        dyn = (i // 4) % 2 == 1
+        N = SIZES_NP2[(i * 2 + rng.randrange(3)) % len(SIZES_NP2)]
+        r = N if i % 7 == 6 and N <= 7 else rng.randint(1, min(N, 3))
+        k = rng.randrange(2 * r + 1)
+        ws = [1 if j == k else 0 for j in range(2 * r + 1)]
+        call = mk_call(rng, N, r, rng.randint(4, 6), 5, MODE_FORM[mode], dyn, rng.choice(['random', 'periodic', 'random']),
+                       rule={'fam': 'lin', 'ws': ws, 'm': 7})
+        call['wrap'] = {'kind': 'projview', 'k': k}
+        yield {'kind': 'retview/%s/%s' % (mode, 'callable' if dyn else 'fixed'), 'calls': [call]}
+
+
+def gen_inplace(rng, tier):
+    """(g) pure rules that write into their neighbourhood argument before / while / after computing: every rule call
+    must be given its own copy, and a cache key must be the contents the rule was GIVEN.  blank (BlankCentre, model Lin),
+    scribble (twins.Scribble over Lin / Aff with fill 0, 1, 2, 77, model = the inner rule), sortrank (SortThenRank,
+    oracle-only).  All three modes, rings that are not powers of two, r up to N."""
+    mult = 1 if tier == 'quick' else 8
+    for i in range(18 * mult):
+        mode = ('plain', 'memo', 'recursive')[i % 3]
+        dyn = (i // 3) % 2 == 1
+        N = SIZES_NP2[(i + rng.randrange(4)) % len(SIZES_NP2)]
+        r = rng.choice([N, N - 1]) if i % 6 == 5 and N <= 7 else rng.randint(1, min(N, 3))
+        k = rng.choice([3, 4])
+        rule = asym_rule(rng, r, k)
+        if rule['fam'] != 'lin':
+            rule = {'fam': 'lin', 'ws': rule['ws'], 'm': k}
+        rule['ws'][r] = rng.randrange(1, k)                      # the centre, read before it is blanked, matters
+        call = mk_call(rng, N, r, rng.randint(3, 5), k, MODE_FORM[mode], dyn, rng.choice(BIASES), rule=rule)
+        call['wrap'] = {'kind': 'blank'}
+        yield {'kind': 'inplace/blank/%s' % mode, 'calls': [call]}
+    for i in range(24 * mult):
+        mode = ('plain', 'memo', 'recursive', 'recursive')[i % 4]
+        dyn = (i // 4) % 2 == 1
+        N = SIZES_NP2[(i + rng.randrange(4)) % len(SIZES_NP2)]
+        r = rng.choice([N, N - 1]) if i % 8 == 7 and N <= 7 else rng.randint(1, min(N, 3))
+        k = rng.choice([2, 3])
+        fill = (0, 1, 0, 2, 77, 0)[i % 6]
+        call = mk_call(rng, N, r, rng.randint(3, 5), k, MODE_FORM[mode], dyn, rng.choice(['sparse', 'random', 'periodic']),
+                       rule=asym_rule(rng, r, k))
+        call['wrap'] = {'kind': 'scribble', 'fill': fill}
+        yield {'kind': 'inplace/scribble%d/%s' % (fill, mode), 'calls': [call]}
+    for i in range(18 * mult):
+        N = SIZES_NP2[(i + rng.randrange(4)) % len(SIZES_NP2)]
+        r = rng.choice([N, N - 1]) if i % 6 == 5 and N <= 7 else rng.randint(1, min(N, 3))
+        yield {'kind': 'inplace/sortrank', 'oracle_only': 'sortrank', 'row': [rng.randrange(4) for _ in range(N)], 'r': r,
+               'T': rng.randint(3, 6), 'dyn': i % 2 == 1, 'dtype': ('int64', 'int32', 'uint8')[i % 3]}
+
+
+def gen_reentrant(rng, tier):
+    """(h) rules that call the library themselves (twins.Reentrant): before and after computing its value the rule runs a
+    complete MEMOISED cpl.evolve on the same ring size, radius, dtype and initial row with ANOTHER pure rule.  Tables or
+    scratch buffers that are not local to one call would be filled with the other rule's values.  Model = the inner rule."""
+    n = 18 if tier == 'quick' else 120
+    for i in range(n):
+        mode = ('plain', 'memo', 'recursive')[i % 3]
+        dyn = (i // 3) % 2 == 1
+        N = [3, 5, 6, 7][(i + rng.randrange(4)) % 4]
+        r = rng.randint(1, min(N, 2))
+        k = rng.choice([2, 3])
+        call = mk_call(rng, N, r, rng.randint(3, 4), k, MODE_FORM[mode], dyn, rng.choice(BIASES), rule=asym_rule(rng, r, k))
+        call['wrap'] = {'kind': 'reentrant', 'rule2': asym_rule(rng, r, k), 'memo2': ('true', 'join', 'true', 'literal')[i % 4],
+                        'T2': rng.randint(2, 3)}
+        yield {'kind': 'reentrant/%s/%s' % (mode, 'callable' if dyn else 'fixed'), 'calls': [call]}
+
+
+def gen_callform(rng, tier):
+    """(i) the same call written with 0, 2, 3, 4 or 5 positional arguments, the rest by keyword (twins.invoke); the
+    memoize strings are built at run time"""
+    reps = 1 if tier == 'quick' else 6
+    for _ in range(reps):
+        for npos in (0, 2, 3, 4, 5):
+            for memo in ('false', 'true', 'join', 'bytes', 'np_true', 'str_subclass'):
+                N = rng.choice(SIZES_NP2)
+                r = rng.randint(1, min(N, 3))
+                k = rng.choice([2, 3])
+                call = mk_call(rng, N, r, rng.randint(2, 5), k, memo, rng.random() < 0.4, rng.choice(BIASES),
+                               rule=asym_rule(rng, r, k))
+                call['npos'] = npos
+                yield {'kind': 'callform/pos%d/%s' % (npos, VALID[memo]), 'calls': [call]}
+
+
 def generate(rng, tier):
+    yield from gen_retview(rng, tier)
+    yield from gen_inplace(rng, tier)
+    yield from gen_reentrant(rng, tier)
+    yield from gen_callform(rng, tier)
     yield from gen_dress(rng, tier)
     yield from gen_objdtype(rng, tier)
     yield from gen_outofrange(rng, tier)
@@ -438,18 +569,46 @@ def _make_rule(spec):
     return make_rule(spec)
 
 
+def _build_twin(cpl, call):
+    """the Python rule of a call: the family twin of call['rule'], or what call['wrap'] says (the Coq side always
+    uses call['rule'])"""
+    w = call.get('wrap')
+    if not w:
+        return _make_rule(call['rule'])
+    if w['kind'] == 'projview':
+        return ProjView1(w['k'])
+    if w['kind'] == 'scribble':
+        return Scribble(_make_rule(call['rule']), w['fill'])
+    if w['kind'] == 'blank':
+        return BlankCentre(call['rule']['ws'], call['rule']['m'])
+    if w['kind'] == 'reentrant':
+        other = make_rule(w['rule2'])
+
+        def nested():
+            ca2 = np.array(call['hist'][-1:], dtype=call['dtype'])
+            cpl.evolve(ca2, timesteps=w['T2'], apply_rule=other, r=call['r'], memoize=MEMO_FORMS[w['memo2']][0]())
+        return Reentrant(_make_rule(call['rule']), nested)
+    raise ValueError(w)
+
+
+EVOLVE_PARAMS = ['cellular_automaton', 'timesteps', 'apply_rule', 'r', 'memoize']
+
+
 def run_call(cpl, call, memo_value, rule=None):
     """one evolve call on the implementation; `rule` = an existing Logged1 object to pass again (its log is
     sliced), or None for a fresh one.  Returns (obs, number of rule calls of THIS call, their log)"""
     ca = np.array(call['hist'], dtype=call['dtype'])
     if rule is None:
-        rule = Logged1(_make_rule(call['rule']))
+        rule = Logged1(_build_twin(cpl, call))
     start = len(rule.log)
     kind, T = call['ts']
     ts = PredLt(T) if kind == 'lt' else T
     # the dressing (shape of the callable only) goes outermost: it is what evolve receives; the logging twin is inside
     fn = dress(rule, call.get('dress'))
-    res = call_impl(lambda: cpl.evolve(ca, timesteps=ts, apply_rule=fn, r=call['r'], memoize=memo_value))
+    if 'npos' in call:     # the same call with call['npos'] positional arguments and the rest by keyword
+        res = call_impl(lambda: invoke(cpl.evolve, EVOLVE_PARAMS, [ca, ts, fn, call['r'], memo_value], call['npos']))
+    else:
+        res = call_impl(lambda: cpl.evolve(ca, timesteps=ts, apply_rule=fn, r=call['r'], memoize=memo_value))
     log = rule.log[start:]
     if res[0] != 'ok':
         return list(res), len(log), log
@@ -473,10 +632,32 @@ def _run_signed_zero(cpl, c):
     return obs
 
 
+def _sortrank_reference(row, r, steps):
+    rows, N = [list(row)], len(row)
+    for _ in range(steps):
+        cur = rows[-1]
+        rows.append([sum(1 for j in range(2 * r + 1) if cur[(c - r + j) % N] < cur[c]) for c in range(N)])
+    return rows
+
+
+def _run_sortrank(cpl, c):
+    obs = []
+    for memo in (False, True, ''.join(['recur', 'sive'])):
+        ca = np.array([c['row']], dtype=c['dtype'])
+        rule = Logged1(SortThenRank())
+        ts = PredLt(c['T']) if c['dyn'] else c['T']
+        res = call_impl(lambda: cpl.evolve(ca, timesteps=ts, apply_rule=rule, r=c['r'], memoize=memo))
+        obs.append({'res': list(res) if res[0] != 'ok' else ['ok', _to_int_rows(res[1])], 'ncalls': len(rule.log)})
+    obs.append({'reference': _sortrank_reference(c['row'], c['r'], c['T'] - 1)})
+    return obs
+
+
 def run_impl(c):
     import cellpylib as cpl
     if c.get('oracle_only') == 'signed_zero':
         return _run_signed_zero(cpl, c)
+    if c.get('oracle_only') == 'sortrank':
+        return _run_sortrank(cpl, c)
     obs = []
     objs = {}          # 'obj' key -> the one rule object passed to every call that carries the key
     for call in c['calls']:
@@ -524,6 +705,8 @@ def _cells(call):
 def nontrivial(c, obs):
     if c.get('finding'):
         return False
+    if c.get('oracle_only') == 'sortrank':
+        return all(o['res'][0] == 'ok' for o in obs[:3]) and min(obs[1]['ncalls'], obs[2]['ncalls']) < obs[0]['ncalls']
     if c.get('oracle_only'):
         # all modes returned, -0.0 survives into the result, and memoize=True answered some cell from its cache
         return (all(o['res'][0] == 'ok' for o in obs) and obs[0]['res'][1]['negzeros'] > 1
@@ -548,6 +731,15 @@ def oracle(c, obs):
     """C03 on the implementation alone: every supported option value gives the array memoize=False gives;
     a string equal to 'recursive' is accepted however it was built; an unsupported value is rejected
     (when a step is attempted)."""
+    if c.get('oracle_only') == 'sortrank':
+        ref = obs[3]['reference']   # the pure function of the ORIGINAL contents, iterated in the harness
+        for mode, ob in zip(('False', 'True', 'recursive'), obs[:3]):
+            if ob['res'][0] != 'ok':
+                return 'memoize=%s raised %s with a rule that sorts its neighbourhood in place' % (mode, ob['res'][1])
+            if ob['res'][1] != ref:
+                return ('memoize=%s: a rule that sorts its neighbourhood argument in place (its value depends only on the '
+                        'contents it was given) does not produce the synchronous ring update' % mode)
+        return None
     if c.get('oracle_only') == 'signed_zero':
         ref = obs[0]['res']         # memoize=False, then True, then 'recursive'
         if ref[0] != 'ok':
